@@ -74,6 +74,11 @@ type vfC04Conn struct {
 	openErr error
 	opened  []*vfC04MS
 	nextMS  func() *vfC04MS
+	// interference points (zz_verif_c04_interf_test.go): a stream open parked INSIDE OpenStream after the muxer
+	// created the stream, an inbound stream parked in AcceptStream's hand-over, callbacks around Close
+	parkOpen   chan struct{}
+	parkAccept chan struct{}
+	onClose    func(phase string)
 }
 
 func (c *vfC04Conn) release() {
@@ -86,10 +91,41 @@ func (c *vfC04Conn) release() {
 	}
 	c.scope.Done()
 }
-func (c *vfC04Conn) Close() error { c.release(); return c.vfStubConn.Close() }
-func (c *vfC04Conn) CloseWithError(e network.ConnErrorCode) error {
+func (c *vfC04Conn) hook(phase string) {
+	c.mu.Lock()
+	h := c.onClose
+	c.mu.Unlock()
+	if h != nil {
+		h(phase)
+	}
+}
+func (c *vfC04Conn) Close() error {
+	c.hook("close-pre")
 	c.release()
-	return c.vfStubConn.CloseWithError(e)
+	err := c.vfStubConn.Close()
+	c.hook("close-post")
+	return err
+}
+func (c *vfC04Conn) CloseWithError(e network.ConnErrorCode) error {
+	c.hook("close-pre")
+	c.release()
+	err := c.vfStubConn.CloseWithError(e)
+	c.hook("close-post")
+	return err
+}
+func (c *vfC04Conn) AcceptStream() (network.MuxedStream, error) {
+	ms, err := c.vfStubConn.AcceptStream()
+	if err != nil {
+		return nil, err
+	}
+	c.mu.Lock()
+	park := c.parkAccept
+	c.parkAccept = nil
+	c.mu.Unlock()
+	if park != nil {
+		<-park // the stream was accepted on the live connection; the hand-over to the swarm is delayed
+	}
+	return ms, nil
 }
 func (c *vfC04Conn) Scope() network.ConnScope { return c.scope }
 func (c *vfC04Conn) OpenStream(ctx context.Context) (network.MuxedStream, error) {
@@ -105,7 +141,12 @@ func (c *vfC04Conn) OpenStream(ctx context.Context) (network.MuxedStream, error)
 	ms := c.nextMS()
 	c.mu.Lock()
 	c.opened = append(c.opened, ms)
+	park := c.parkOpen
+	c.parkOpen = nil
 	c.mu.Unlock()
+	if park != nil {
+		<-park // the muxer has opened the stream on the live connection; the return to the caller is delayed
+	}
 	return ms, nil
 }
 
@@ -554,14 +595,23 @@ func TestVerifC04Swarm(t *testing.T) {
 	}()
 	iters := vfh.EnvInt("VERIF_C04_SWARM_ITERS", 120)
 	only := int64(0)
+	var onlyInterf *vfC04InterfPlan
 	if v := os.Getenv("VERIF_C04_ONLY"); v != "" {
 		var p struct {
 			Seed int64 `json:"seed"`
+			Park string `json:"park"`
 		}
 		if err := jsonUnmarshalVF([]byte(v), &p); err != nil {
 			t.Fatal(err)
 		}
 		only, iters = p.Seed, vfh.EnvInt("VERIF_C04_REPEAT", 1)
+		if p.Park != "" {
+			onlyInterf = &vfC04InterfPlan{}
+			if err := jsonUnmarshalVF([]byte(v), onlyInterf); err != nil {
+				t.Fatal(err)
+			}
+			only = 1
+		}
 	}
 	res.Rule = "one evaluation = one seeded operation sequence (10-23 steps) on a real Swarm with a real resource manager (small random limits) and stub transport connections that own a real connection scope; after every step the swarm is quiescent and Stat() is audited against the live objects; non-trivial = at least one refusal/failure/race stage was hit; distinct = distinct (stage:kind) failure classes hit, counted over the run"
 	path := ""
@@ -572,6 +622,48 @@ func TestVerifC04Swarm(t *testing.T) {
 	cover := map[string]int{}
 	fired := 0
 	stuck := 0
+	if only == 0 || onlyInterf != nil {
+		plans := vfC04InterfPlans()
+		if onlyInterf != nil {
+			plans = nil
+			for r := 0; r < vfh.EnvInt("VERIF_C04_REPEAT", 1); r++ {
+				plans = append(plans, *onlyInterf)
+			}
+			iters = 0
+		}
+		for i, plan := range plans {
+			if stuck >= 4 {
+				res.Inc("skipped_after_stuck", len(plans)-i)
+				break
+			}
+			tr := vfh.NewTrace(fmt.Sprintf("i%d", i))
+			hit := false
+			dl, hung := vfc04.RunBubble(t, 25*time.Second, func(t *testing.T) { hit = vfC04SwInterf(t, plan, tr) })
+			if dl != "" {
+				tr.Emit("deadlock", "msg", dl)
+				stuck++
+			}
+			if hung != "" {
+				stuck++
+				res.Inc("hangs", 1)
+				res.Sample(map[string]any{"plan": plan.String(), "hung": hung})
+			}
+			if hit {
+				fired++
+				cover["interference:"+plan.Park+":"+plan.Trigger+":"+plan.Release]++
+			}
+			res.Count(1, tr.Len())
+			if path != "" {
+				if err := tr.AppendTo(path, map[string]any{"family": "swarm", "cfg": "stub-conns", "plan": plan.String(), "kind": "interference",
+					"side": "", "k": 0, "hit": hit, "stage": "swarm", "hang": hung, "p": plan}); err != nil {
+					t.Fatal(err)
+				}
+			}
+			if i == 0 {
+				res.Sample(map[string]any{"plan": plan.String(), "events": tr.Events()})
+			}
+		}
+	}
 	for i := 0; i < iters; i++ {
 		if stuck >= 4 {
 			res.Inc("skipped_after_stuck", iters-i)
